@@ -897,7 +897,7 @@ func TestVerifC13Mutating(t *testing.T) {
 	}
 	vh := &validating.PodValidatingHandler{Client: fake.NewClientBuilder().WithScheme(scheme.Scheme).Build(), Decoder: decoder}
 
-	kit.Run(t, kit.Config{Property: "C13", Unit: "mutating", Quick: 5000, Thorough: 100000,
+	kit.Run(t, kit.Config{Property: "C13", Unit: "mutating", Quick: 5000, Thorough: 400000,
 		Rule: "one pod + profile set per case: QoS label in {absent, LSE, LSR, LS, BE, SYSTEM, junk}, spec.priority nil / class edges +-1 / mid and batch ranges / gaps / extremes, priority-class label (known or junk), 0-3 containers and 0-2 init containers (sidecars) with native and directly written tier quantities from a boundary pool (1m, 0.0005, 500u, 1n, 1.5, 1e3, 1Gi, 1G, 2Ei, ...), request only / both / limit without request, overhead, stale or broken summary annotation; 0-3 matching + 0-2 non-matching ClusterColocationProfiles (pod and namespace selectors; QoS class, PriorityClass at every class edge, priority-class / QoS labels, label-key mapping, strategic-merge patch, probability 0/100, skip-update-resources) applied in name order. distinct = (final QoS, final class, tier source, #matched, translation outcome, shape of the resources (native / tier / limit-only / overhead / init), annotation state); non-trivial = a pod that is translated and has a native cpu or memory entry, or that already carries tier entries",
 	}, func(c *kit.Case) {
 		r := c.R
